@@ -234,7 +234,7 @@ func checkBatch(base *meta.Data, now time.Time, batch []pt) (viol, sig string) {
 			}
 			count[i]++
 			// group designated by the metadata for this timestamp
-			g := rpi.ShardGroupByTimestamp(p.Time())
+			g := designated(rpi, p.Time())
 			if g == nil {
 				return fmt.Sprintf("point %d mapped to shard %d but the metadata designates no live group for its timestamp", i, sid), "mapped-no-group"
 			}
@@ -280,6 +280,18 @@ func checkBatch(base *meta.Data, now time.Time, batch []pt) (viol, sig string) {
 		}
 	}
 	return "", ""
+}
+
+// designated is the reference reading of "the shard group the metadata
+// designates for a timestamp": live, containing t, and not truncated at/after t.
+func designated(rpi *meta.RetentionPolicyInfo, t time.Time) *meta.ShardGroupInfo {
+	for i := range rpi.ShardGroups {
+		g := &rpi.ShardGroups[i]
+		if g.DeletedAt.IsZero() && !t.Before(g.StartTime) && t.Before(g.EndTime) && (g.TruncatedAt.IsZero() || t.Before(g.TruncatedAt)) {
+			return g
+		}
+	}
+	return nil
 }
 
 type stateEval struct {
